@@ -68,6 +68,14 @@ type BatchEntry struct {
 	Absent bool `json:"absent,omitempty"`
 }
 
+// TransactAct is one Put or Delete action of a TransactWriteItems call, with an optional condition.
+type TransactAct struct {
+	Table string   `json:"table"`
+	Put   val.Item `json:"put,omitempty"`
+	Del   val.Item `json:"del,omitempty"`
+	Cond  string   `json:"cond,omitempty"`
+}
+
 // AttrUpdate is one entry of the legacy AttributeUpdates parameter.
 type AttrUpdate struct {
 	Action string `json:"action"`
@@ -115,6 +123,8 @@ type Op struct {
 	// and the UnprocessedItems map OF THE RESPONSE (the same object) is sent as the RequestItems of a second call - the retry
 	// loop of the SDK documentation; the outcome is the second call's
 	ResendUnprocessed bool `json:"resendunprocessed,omitempty"`
+	// Acts (TransactWriteItems): the actions of the transaction, in order
+	Acts []TransactAct `json:"acts,omitempty"`
 	// Token (TransactWriteItems): the ClientRequestToken of the call
 	Token string `json:"token,omitempty"`
 	// SharePtrs (SDK v1): equal values of one request map are ONE *AttributeValue used at several places
